@@ -12,7 +12,7 @@
         message-digest attribute = H(eContent)  (when signed attributes are present)
         H alg (countersign (claim data | cbor_bstr signature) protected) = TSTInfo.messageImprint    -- per sigTst / sigTst2
         time inside the TSA certificate's validity widened by the token's accuracy
-        (vt = true: TSA certificate profile at that time and trust at that time)
+        (vt = true: id-kp-timeStamping present, TSA certificate profile at that time and trust at that time)
    and t is the TSTInfo with genTime replaced by the signed signing-time attribute when there is one. *)
 From Coq Require Import List NArith ZArith Bool.
 From C2PA Require Import Base.Bytes Generated.C36_facts Model.Timestamp Proofs.TimestampProofs.
@@ -36,29 +36,37 @@ Theorem c36_unbound_not_used :
     ~ In (LTs TsTrusted) (v_log (verify_cose H Verify profile_rest trusted countersign cbor_bstr c None hs cd sig ph vt now)).
 Proof. exact unbound_not_used. Qed.
 
-(* ... and a timeStamp.malformed / mismatch / outsideValidity / untrusted code is reported, outside the known class
-   F-TS-SILENT (the run over the SignerInfos ends on one whose certificate is not embedded, on none at all, or on the
-   `?` exit of certificate ordering: nothing is logged). *)
+(* ... and a timeStamp.malformed / mismatch / outsideValidity / untrusted code is reported, for every token that has at
+   least one SignerInfo and whose embedded signer certificates parse with x509-parser.  (F-TS-SILENT was repaired by
+   5b12435f8: a SignerInfo whose certificate is not embedded now logs timeStamp.untrusted, so no known class is needed;
+   what remains silent is an empty SignerInfos set and the `?` exit of certificate ordering — [known_silent].) *)
 Theorem c36_failure_reported :
+  forall H Verify profile_rest trusted countersign cbor_bstr c st tk rest cd sig ph vt now,
+    (forall t, ~ header_bound H Verify profile_rest trusted countersign cbor_bstr ((st, Some [tk]) :: rest) cd sig ph vt t) ->
+    tk_signers tk <> [] -> certs_parse tk ->
+    has_failure_code (v_log (verify_cose H Verify profile_rest trusted countersign cbor_bstr c None ((st, Some [tk]) :: rest) cd sig ph vt now)).
+Proof. exact failure_reported_structural. Qed.
+
+(* the general form: silence only for the residual class *)
+Theorem c36_failure_reported_general :
   forall H Verify profile_rest trusted countersign cbor_bstr c st tk rest cd sig ph vt now,
     (forall t, ~ header_bound H Verify profile_rest trusted countersign cbor_bstr ((st, Some [tk]) :: rest) cd sig ph vt t) ->
     ~ known_silent H Verify profile_rest trusted tk (stamped_message countersign cbor_bstr st cd sig ph) vt ->
     has_failure_code (v_log (verify_cose H Verify profile_rest trusted countersign cbor_bstr c None ((st, Some [tk]) :: rest) cd sig ph vt now)).
 Proof. exact failure_reported. Qed.
 
-(* the simple syntactic members of the silent class *)
-Theorem c36_silent_class :
+(* a token none of whose SignerInfos has an embedded certificate: reported timeStamp.untrusted (was: dropped silently) *)
+Theorem c36_missing_signer_cert_reported :
   forall H Verify profile_rest trusted tk data vt,
     tk_signed_data tk = true -> tk_certs tk = Some true ->
-    Forall (fun s => si_cert s = None) (tk_signers tk) ->
-    verify_time_stamp H Verify profile_rest trusted tk data vt = (Err EInvalidData, []).
-Proof. exact silent_when_no_signer_cert. Qed.
+    tk_signers tk <> [] -> Forall (fun s => si_cert s = None) (tk_signers tk) ->
+    verify_time_stamp H Verify profile_rest trusted tk data vt = (Err EUntrusted, [LTs TsUntrusted]).
+Proof. exact missing_signer_cert_reported. Qed.
 
-(* the class is real (witness evaluated on the model; replayed on the implementation by ./check): the token is not used,
-   the expired credential is reported expired, but no time-stamp code is logged *)
-Theorem c36_silent_refuted :
-  v_time (w_run (w_token None)) = None /\ v_log (w_run (w_token None)) = [] /\ v_expired (w_run (w_token None)) = true.
-Proof. exact silent_refuted. Qed.
+(* regression witness of the repaired F-TS-SILENT (corpus line 3) *)
+Theorem c36_missing_cert_example :
+  v_time (w_run (w_token None)) = None /\ v_log (w_run (w_token None)) = [LTs TsUntrusted] /\ v_expired (w_run (w_token None)) = true.
+Proof. exact missing_cert_reported_example. Qed.
 
 (* SignatureInfo.time (signing_time_from_sign1: no trust checks) is shown only for a bound, CMS-verified token. *)
 Theorem c36_reported_time_bound :
@@ -102,26 +110,24 @@ Theorem c36_expired_without_time :
     v_accepted (verify_cose H Verify profile_rest trusted countersign cbor_bstr c None hs cd sig ph vt now) = false.
 Proof. exact expired_without_time. Qed.
 
-(* TSA certificate checks (trust on): the accepted TSA certificate carries id-kp-timeStamping and nothing else — outside
-   the known class F-TSA-EKU (no timeStamping, but emailProtection or OCSPSigning, which has_allowed_eku accepts before
-   it consults the configured list).  The hypothesis eku_other_allowed = false reflects that the only configured EKU
-   is id-kp-timeStamping itself, which x509-parser reports through the flag, never through `other`. *)
+(* TSA certificate checks (trust on): the accepted TSA certificate carries id-kp-timeStamping and nothing else.
+   (F-TSA-EKU was repaired by a6060c320: verify_time_stamp now requires the EKU explicitly, so the statement holds
+   without a known class and without any assumption on has_allowed_eku.) *)
 Theorem c36_tsa_eku :
   forall H Verify profile_rest trusted tk data s t,
     bound H Verify profile_rest trusted tk data true s t ->
     forall c, si_cert s = Some c ->
     exists e, tc_eku c = Some e /\ eku_any e = false /\
-              (eku_other_allowed e = false ->
-               (eku_time_stamping e = true /\ eku_email_protection e = false /\ eku_ocsp_signing e = false /\
-                eku_client_auth e = false /\ eku_server_auth e = false /\ eku_code_signing e = false /\ eku_other_nonempty e = false)
-               \/ known_non_tsa_eku e).
+              eku_time_stamping e = true /\ eku_email_protection e = false /\ eku_ocsp_signing e = false /\
+              eku_client_auth e = false /\ eku_server_auth e = false /\ eku_code_signing e = false /\ eku_other_nonempty e = false.
 Proof. exact tsa_eku. Qed.
 
-(* the class is real: a token signed with an emailProtection-only certificate makes an expired credential accepted *)
-Theorem c36_tsa_eku_refuted :
-  v_accepted (w_run (w_token (Some (w_cert w_eku_email)))) = true
-  /\ v_log (w_run (w_token (Some (w_cert w_eku_email)))) = [LTs TsValidated; LTs TsTrusted].
-Proof. exact tsa_eku_refuted. Qed.
+(* regression witness of the repaired F-TSA-EKU (corpus lines 1-2): an emailProtection-only "TSA" no longer rescues an
+   expired credential *)
+Theorem c36_email_tsa_rejected :
+  v_accepted (w_run (w_token (Some (w_cert w_eku_email)))) = false
+  /\ v_log (w_run (w_token (Some (w_cert w_eku_email)))) = [LTs TsValidated; LTs TsUntrusted].
+Proof. exact email_tsa_rejected_example. Qed.
 
 (* tie to the source: the order of status constants in verify_time_stamp is the one the model transcribes *)
 Theorem c36_status_sequence_tie : map code_num model_status_sequence = VERIFY_TS_STATUS_SEQ.
